@@ -3,15 +3,18 @@
 (* of its three members carry a skip marker x spelling of the marker) next to an annotated         *)
 (* neighbour and an un-annotated decoy. Prints the program and the definitions P requires.          *)
 EXTENDS Program, TLC, Json
-CONSTANTS Kinds, Annotations, Nestings, SkipSets, SkipSpellings, Modes
+CONSTANTS Kinds, Annotations, Nestings, SkipSets, SkipSpellings, Modes, Twins
 VARIABLE c
 
 \* mode: single-file output or folder output (one module per crate); the required definitions are the same
-Init == c \in [kind : Kinds, annotation : Annotations, nesting : Nestings, skips : SkipSets, spelling : SkipSpellings, mode : Modes]
+\* twin = "sibling": a second annotated item of the same kind with the SAME Rust identifier lives in a sibling module (v1::Event /
+\* v2::Event), told apart on the foreign side by serde(rename): two annotated items, two definitions
+Init == c \in [kind : Kinds, annotation : Annotations, nesting : Nestings, skips : SkipSets, spelling : SkipSpellings, mode : Modes, twin : Twins]
 Next == UNCHANGED c
 
 HasMembers(k) == k \in {"struct", "unit_enum", "tagged_enum"}
 InScope == (~HasMembers(c.kind) => (c.skips = "none" /\ c.spelling = "serde_skip"))
+           /\ (c.twin # "none" => (HasMembers(c.kind) /\ c.annotation = "plain" /\ c.nesting \in {"top", "mod1"} /\ c.skips = "none"))
            /\ (c.skips = "none" => c.spelling = "serde_skip")
 Skipped(i) == CASE c.skips = "none" -> FALSE
                 [] c.skips = "first" -> i = 1
@@ -34,7 +37,13 @@ Neighbour == [name |-> "Neighbour", kind |-> "struct", annotated |-> TRUE,
               members |-> << [name |-> "n", skipped |-> FALSE, payload |-> "unit", fields |-> <<>>] >>]
 Decoy == [name |-> "Decoy", kind |-> "struct", annotated |-> FALSE,
           members |-> << [name |-> "d", skipped |-> FALSE, payload |-> "unit", fields |-> <<>>] >>]
-Items == <<Neighbour, Subject, Decoy>>
+\* Go defines a serde-renamed ENUM under its original name (listed under C09, snapshot-pinned): there the twin would be a second
+\* definition of the same name; that combination is judged by C09 only
+GoTwinDeferred == c.twin # "none" /\ c.kind # "struct"
+Twin == [name |-> "SubjectV2", rust_name |-> "Subject", rename |-> "SubjectV2", kind |-> c.kind, annotated |-> TRUE,
+         members |-> << [name |-> IF c.kind = "struct" THEN "delta" ELSE "Delta", skipped |-> FALSE,
+                         payload |-> IF c.kind = "tagged_enum" THEN "newtype" ELSE "unit", fields |-> <<>>] >>]
+Items == IF c.twin = "none" THEN <<Neighbour, Subject, Decoy>> ELSE <<Neighbour, Subject, Decoy, Twin>>
 
 Emit == InScope => PrintT(<<"REPLAY", ToJson([case |-> c, items |-> Items, expected |-> ExpectedDefs(Items)])>>)
 =============================================================================
